@@ -31,6 +31,9 @@ var propConfigs = map[string]*propConfig{
 	"C19": {replay: replayC18, undecided: "that time.AfterFunc fires after exactly the armed delay (A-TIMER); counts, order, armed delay and reset on progress are proved"},
 	"C14": {extra: sweepBrokerWrites, undecided: "that the broker's TCP connection is closed on every session end (close is in run's deferred function, outside the step contracts); only what is written before the close is decided"},
 	"C24": {extra: sweepSendScope, undecided: "byte-level serialisation of the packet (paho's Write, trusted A-PAHO); UTF-8 well-formedness and the U+0000 ban of MQTT strings; validity of predefined topic names from the configuration (A-CFG)"},
+	"C32": {undecided: "that gateway and client really run with the same configuration (the property's premise); the composition itself is the observation that both sides' contracts resolve a predefined ID with the same specification function nameSpec(configuration, client ID, ID) and a short ID with the proved two-octet coding"},
+	"C13": {undecided: "the time bound (connection poll interval plus pending send); goroutines not in the session's errgroup (per-exchange watcher goroutines and timers end on context cancellation: not decided); that a cause reaches the errgroup (the receive loops are not under contract: A-RECVLOOP)"},
+	"C15": {extra: sweepIsolation, undecided: "the UDP/DTLS demultiplexer (pion) that maps peer addresses to connections; writes through slices aliasing shared configuration data (A-APPEND); timing interference (shared CPU, shared broker)"},
 	"C30": {undecided: "what the YAML decoder and the option parser's loop compute (A-YAML, A-PARSE); the tools' flag plumbing through urfave/cli (A-CLI)"},
 	"C31": {extra: sweepAuthOnlyInConnect, undecided: "flag and environment-variable resolution inside urfave/cli (A-CLI); DTLS itself"},
 	"C17": {undecided: "real loss timing: which retransmissions happen is the retry budget of C19 under A-TIMER; the API's blocking points are treated with rely clauses (A-RELY)"},
